@@ -27,7 +27,10 @@ def knob_choices(cls):
     if cls == 'ExtendedSpatialHashNNPS':
         return [dict(H=H, table_size=t, approximate=False)
                 for H in (1, 2, 3, 4) for t in (1, 7, 131072)]
-    if cls in ('ZOrderNNPS', 'ExtendedZOrderNNPS'):
+    if cls == 'ZOrderNNPS':
+        # its stencil is always +-1 cell; H > 1 belongs to the Extended class
+        return [dict(asymmetric=a) for a in (False, True)]
+    if cls == 'ExtendedZOrderNNPS':
         return [dict(H=H, asymmetric=a) for H in (1, 2, 3)
                 for a in (False, True)]
     if cls == 'StratifiedHashNNPS':
@@ -122,11 +125,33 @@ def in_domain(snap, dim, rs):
     return True, ''
 
 
+ZFAM = ('ZOrderNNPS', 'ExtendedZOrderNNPS', 'StratifiedSFCNNPS')
+SSFC = 'StratifiedSFCNNPS'
+OFAM = ('OctreeNNPS', 'CompressedOctreeNNPS')
+
+
+def family(cls):
+    if cls == SSFC:
+        return 'stratified-sfc'
+    if cls in ZFAM:
+        return 'zorder-family'
+    if cls in OFAM:
+        return 'octree-family'
+    return cls
+
+
 def structure(snap, dim):
     """Structural facts about the input used by the finding classifier."""
     n = [len(s['x']) for s in snap]
     tot = sum(n)
     facts = dict(n=n, empty_array=any(k == 0 for k in n), total=tot)
+    coin = 0
+    for s in snap:
+        if len(s['x']) > 1:
+            p = np.stack([s['x'], s['y'], s['z']], 1)
+            u, cnt = np.unique(p, axis=0, return_counts=True)
+            coin = max(coin, int(cnt.max()))
+    facts['max_coincident'] = coin
     if tot:
         ext = []
         for c in 'xyz':
@@ -136,6 +161,18 @@ def structure(snap, dim):
     else:
         facts['degenerate_box'] = True
     return facts
+
+
+def condition(cls, facts, knobs):
+    """The structural condition part of a mechanism key."""
+    if facts.get('empty_array'):
+        return 'empty-array'
+    if cls in OFAM and facts.get('max_coincident', 0) >= \
+            (knobs or {}).get('leaf_max_particles', 10):
+        return 'coincident>=leaf'
+    if cls in ZFAM and len(facts.get('n', [0])) > 1:
+        return 'multi-array'
+    return 'regular'
 
 
 def check_queries(nn, pas, oracle, cls, tag, sort_gids, mon, case, knobs,
@@ -174,14 +211,6 @@ def check_queries(nn, pas, oracle, cls, tag, sort_gids, mon, case, knobs,
                         elif len(extra):
                             bad = ('extra', 'extra %r' % (
                                 extra.tolist()[:10],))
-                        elif sort_gids and len(got) > 1:
-                            if len(gid) and gid[0] != 0xFFFFFFFF:
-                                key = gid[got].astype(np.int64)
-                            else:
-                                key = got.astype(np.int64)
-                            if np.any(np.diff(key) < 0):
-                                bad = ('unsorted', 'sort_gids but order %r'
-                                       % (got.tolist()[:20],))
                 if bad:
                     mon.bad(cls, bad[0], tag, 'src=%d dst=%d i=%d: %s' % (
                         s, d, i, bad[1]), case, knobs, s, d, i, oracle)
@@ -195,6 +224,7 @@ class Mon(object):
         self.viol = []
         self.cnt = {}
         self._cfg = 0
+        self.facts = None
 
     def c(self, k, n=1):
         self.cnt[k] = self.cnt.get(k, 0) + n
@@ -206,26 +236,34 @@ class Mon(object):
         return self._cfg >= 3
 
     def bad(self, cls, kind, tag, what, case, knobs, s=None, d=None, i=None,
-            oracle=None):
+            oracle=None, facts=None):
         self._cfg += 1
         self.c('violating_observations')
-        facts = {}
+        f = dict(facts or self.facts or {})
         if oracle is not None and s is not None:
-            facts = dict(src_ne_dst=(s != d))
+            f['src_ne_dst'] = (s != d)
             if s != d and kind == 'missing':
-                facts['dst_cell_has_no_src'] = dst_cell_unoccupied(
-                    oracle.snap, s, d, i, oracle.rs)
-        key = classify(cls, kind, facts, case)
+                f['dst_cell_has_no_src'] = dst_cell_unoccupied(
+                    oracle.snap, s, d, i, oracle.rs, knobs)
+        key = classify(cls, kind, f, case, knobs)
         if sum(1 for v in self.viol if v['key'] == key) < 2:
             self.viol.append(dict(
-                key=key, what='%s %s [%s] %s' % (cls, knobs, tag, what),
+                key=key, what='%s %s [%s] %s; facts %s' % (
+                    cls, knobs, tag, what, {k: v for k, v in f.items()
+                                            if k != 'n'}),
                 case=dict(case=case, cls=cls, knobs=knobs)))
 
 
-def dst_cell_unoccupied(snap, s, d, i, rs):
+def dst_cell_unoccupied(snap, s, d, i, rs, knobs=None):
+    """Is the (sub-)cell of destination particle i free of source particles?
+    The z-order family keys its neighbour-box tables by cells of size
+    cell_size / H."""
     hs = np.concatenate([q['h'] for q in snap])
-    cell = rs * hs.max()
+    cell = rs * hs.max() / float((knobs or {}).get('H', 1))
     lo = [min(q[c].min() for q in snap if len(q[c])) for c in 'xyz']
+    ext = [max(q[c].max() for q in snap if len(q[c])) - lo[k]
+           for k, c in enumerate('xyz')]
+    lo = [lo[k] - 0.01 * ext[k] for k in range(3)]
     ci = tuple(int(np.floor((snap[d][c][i] - lo[k]) / cell))
                for k, c in enumerate('xyz'))
     S = snap[s]
@@ -236,10 +274,78 @@ def dst_cell_unoccupied(snap, s, d, i, rs):
     return not np.any(np.all(cs == np.array(ci)[None, :], axis=1))
 
 
-def classify(cls, kind, facts, case):
-    """Mechanism key.  Only the listed structural situations map to the keys
-    of known_findings.json; everything else is keyed by class and kind."""
-    return '%s:%s' % (cls, kind)
+UNRELIABLE_KINDS = ('crash', 'missing', 'duplicate', 'invalid-index',
+                    'sanitizer', 'timeout', 'constructor-raises',
+                    'update-raises')
+
+
+def classify(cls, kind, facts, case, knobs=None):
+    """Mechanism key = family : kind : structural condition.  Only keys listed
+    as 'known' in known_findings.json are suppressed; the condition is part
+    of the key, so the same kind of failure on a *regular* input is a new
+    violation.  For the two families whose data structures are shown to be
+    corrupted under a structural condition (z-order family with several or
+    empty arrays, octrees with coincident particles) every failure kind
+    except 'extra' maps to one 'unreliable' key for that condition."""
+    cond = condition(cls, facts or {}, knobs)
+    fam = family(cls)
+    if kind in UNRELIABLE_KINDS and fam == 'stratified-sfc':
+        return 'stratified-sfc:unreliable:any-input'
+    if kind in UNRELIABLE_KINDS and (
+            (fam == 'zorder-family' and cond in ('multi-array',
+                                                 'empty-array')) or
+            (fam == 'octree-family' and cond == 'coincident>=leaf')):
+        return '%s:unreliable:%s' % (fam, cond)
+    return '%s:%s:%s' % (fam, kind, cond)
+
+
+_KNOWN = None
+
+
+def known_crash_key(cls, knobs, case, arrays, dim):
+    """Configurations that are *listed* crash findings are not executed again
+    (a crash costs a worker and teaches nothing new); they are counted and
+    reported as KNOWN-FINDING.  Anything not listed is run."""
+    global _KNOWN
+    if _KNOWN is None:
+        _KNOWN = set(common.known_keys(PROP))
+    if not _KNOWN:
+        return None
+    # will an array be empty / hold coincident particles at construction or
+    # at any step of the history?  (conservative: the construction state and
+    # "remove_all" operations)
+    snap0 = [dict(x=a['x'], y=a['y'], z=a['z'], h=a['h']) for a in arrays]
+    f = structure(snap0, dim)
+    if will_have_empty_array(case, arrays):
+        f['empty_array'] = True
+    cond = condition(cls, f, knobs)
+    if not ((cls in ZFAM and cond == 'empty-array') or
+            (cls in OFAM and cond == 'coincident>=leaf')):
+        return None       # not a condition under which a crash is listed
+    key = classify(cls, 'crash', f, case, knobs)
+    return key if key in _KNOWN else None
+
+
+def will_have_empty_array(case, arrays):
+    """Replays only the particle *counts* of the history (same random draws
+    as gen.apply_op_pa)."""
+    n = [len(a['x']) for a in arrays]
+    if any(k == 0 for k in n):
+        return True
+    for op in case['history']:
+        rng = np.random.default_rng(op['seed'])
+        a = op['array']
+        if op['kind'] == 'add':
+            if n[a] or any(n):
+                n[a] += int(rng.integers(1, 20))
+        elif op['kind'] in ('remove', 'remove_all'):
+            if n[a]:
+                k = n[a] if op['kind'] == 'remove_all' else \
+                    int(rng.integers(1, n[a] + 1))
+                n[a] -= k
+        if any(k == 0 for k in n):
+            return True
+    return False
 
 
 def too_costly(cls, knobs, snap, dim):
@@ -286,13 +392,20 @@ def run_case(case, arrays, classes, mon, tier, full_knobs=False,
             for cache in (False, True):
                 sort_gids = bool(krng.random() < 0.5)
                 mon.start_config()
+                mon.facts = None
                 rng = np.random.default_rng(case['knob_seed'] + 1)
                 pas = make_pas(arrays, case['gids'], rng)
                 snap = snapshot(pas)
                 ok, why = in_domain(snap, dim, rs)
                 facts = structure(snap, dim)
+                mon.facts = facts
                 tag = 'cache=%d sort=%d T=%d' % (cache, sort_gids,
                                                  case['threads'])
+                kc = known_crash_key(cls, knobs, case, arrays, dim)
+                if kc:
+                    mon.c('configs_not_run_known_crash')
+                    mon.c('known_crash|' + kc)
+                    continue
                 if too_costly(cls, knobs, snap, dim):
                     mon.c('configs_skipped_costly')
                     continue
@@ -322,6 +435,10 @@ def run_case(case, arrays, classes, mon, tier, full_knobs=False,
                                          if len(s['h'])] + [1e-300])
                         did = gen.apply_op_pa(op, pas, dim, cell)
                         mon.c('op_' + did)
+                        mon.facts = structure(snapshot(pas), dim)
+                        mark(dict(id=cid, cls=cls, knobs=knobs, cache=cache,
+                                  idx=case['idx'], facts=mon.facts, step=k,
+                                  op=did, threads=case['threads']))
                         try:
                             nn.update_domain()
                             nn.update()
@@ -340,7 +457,9 @@ def run_case(case, arrays, classes, mon, tier, full_knobs=False,
                         mon.c('out_of_domain_states')
                         break
                     oracle = Oracle(snap, rs)
-                    if cache and k % 2 == 0:
+                    mon.facts = structure(snap, dim)
+                    if cache and cls != 'DictBoxSortNNPS' and k % 2 == 0:
+                        # (DictBoxSortNNPS documents that it disables its cache)
                         # fill the cache with the OpenMP loop first
                         for d in range(len(pas)):
                             for s in range(len(pas)):
@@ -378,7 +497,7 @@ def work(item):
                       full_knobs=item.get('full_knobs', False),
                       skip=set(item.get('skip', ())))
         if sum(len(a['x']) for a in arrays) >= 2:
-            distinct.append('%d' % idx)
+            distinct.append('%d/%s' % (idx, '+'.join(classes)))
         for a in case['recipe']['arrays']:
             sets['dists'].add('%dD/%s/%s' % (case['dim'], a['dist'],
                                              a['hmode']))
@@ -392,19 +511,31 @@ def work(item):
 def run(tier):
     T = common.Timer()
     seed = common.seed()
-    n = 160 if tier == 'quick' else 1600
-    per = 4 if tier == 'quick' else 10
-    items = [dict(seed=seed, lo=a, hi=b, tier=tier, flavour='plain',
-                  timeout=400)
-             for a, b in harness.chunks(n, per)]
-    na = 48 if tier == 'quick' else 400
-    items += [dict(seed=seed, lo=a, hi=b, tier=tier, flavour='asan',
-                   timeout=900)
-              for a, b in harness.chunks(na, 3 if tier == 'quick' else 8)]
-    nt = 16 if tier == 'quick' else 120
-    items += [dict(seed=seed + 1, lo=a, hi=b, tier=tier, flavour='tsan',
-                   only_omp=int(4 + (a % 3)), timeout=900)
-              for a, b in harness.chunks(nt, 2 if tier == 'quick' else 6)]
+    n = 96 if tier == 'quick' else 1600
+    per = 12 if tier == 'quick' else 40
+    groups = [[c] for c in CLASSES]
+    items = []
+    for a, b in harness.chunks(n, per):
+        for g in groups:
+            items.append(dict(seed=seed, lo=a, hi=b, tier=tier,
+                              flavour='plain', classes=g, timeout=400,
+                              worker_key=g[0]))
+    na = 24 if tier == 'quick' else 400
+    for a, b in harness.chunks(na, 6 if tier == 'quick' else 16):
+        for g in groups:
+            items.append(dict(seed=seed, lo=a, hi=b, tier=tier,
+                              flavour='asan', classes=g, timeout=900,
+                              worker_key=g[0]))
+    nt = 8 if tier == 'quick' else 120
+    for a, b in harness.chunks(nt, 4 if tier == 'quick' else 12):
+        for g in groups:
+            items.append(dict(seed=seed + 1, lo=a, hi=b, tier=tier,
+                              flavour='tsan', classes=g, worker_key=g[0],
+                              only_omp=int(4 + (a % 3)), timeout=900))
+    items.sort(key=lambda it: (it['flavour'], it['classes'][0], it['lo']))
+    only = os.environ.get('VERIF_C01_FLAVOURS')
+    if only:
+        items = [it for it in items if it['flavour'] in only.split(',')]
     m, crashes = harness.execute_resilient(
         'checks.c01', items, timeout=2400,
         extra_env={'OMP_NUM_THREADS': '4'})
@@ -419,7 +550,8 @@ def run(tier):
             ncr['watchdog'] = ncr.get('watchdog', 0) + 1
             common.log('  watchdog: %s' % (json.dumps(mk)[:300],))
             continue
-        key = classify(mk['cls'], c['status'], mk.get('facts', {}), None)
+        key = classify(mk['cls'], c['status'], mk.get('facts', {}), None,
+                       mk.get('knobs'))
         ncr[key] = ncr.get(key, 0) + 1
         v.violation(key, '%s %s: worker %s in/after constructor or update; '
                     'facts %s; flavour %s; %s' % (
@@ -457,7 +589,17 @@ def run(tier):
 
 
 def san_classify(rep, item):
-    return None
+    """sanitizer kind + top repository frame + structural condition of the
+    configuration that was running (from the worker's breadcrumb)."""
+    mk = item.get('mark') if isinstance(item, dict) else None
+    if not mk:
+        return None
+    fam = family(mk['cls'])
+    key = classify(mk['cls'], 'sanitizer', mk.get('facts', {}), None,
+                   mk.get('knobs'))
+    if ':unreliable:' in key:
+        return key
+    return '%s|%s' % (rep['key'], key)
 
 
 def replay(path):
